@@ -69,6 +69,8 @@ pub struct Stats {
     pub encoded: u64,
     pub rejected_connects: u64,
     pub takeover_at_limit: bool,
+    pub qos2_in_completed: u64,
+    pub acks_received: u64,
 }
 
 pub struct Interp<'a> {
@@ -137,6 +139,32 @@ impl<'a> Interp<'a> {
         }
     }
 
+    /// Filters (with QoS) the connection will hold once everything it pushed has been processed
+    fn effective_subs(&self, serial: usize) -> Vec<(String, u8, bool)> {
+        // (filter, qos, made on this connection)
+        let mc = &self.model.conns[serial];
+        let mut v: Vec<(String, u8, bool)> = mc
+            .subs
+            .iter()
+            .filter(|x| x.end.is_none())
+            .map(|x| (x.filter.clone(), x.qos, x.made_at >= mc.registered_at && !mc.session_present))
+            .collect();
+        for p in self.pushed[serial].iter() {
+            match p {
+                MPacket::Subscribe { filters, .. } => {
+                    for (f, q) in filters {
+                        if !v.iter().any(|x| x.0 == *f) {
+                            v.push((f.clone(), *q, true));
+                        }
+                    }
+                }
+                MPacket::Unsubscribe { filters, .. } => v.retain(|x| !filters.contains(&x.0)),
+                _ => {}
+            }
+        }
+        v
+    }
+
     fn next_pkid(&mut self, slot: usize) -> u16 {
         let s = &mut self.slots[slot];
         s.next_pkid = if s.next_pkid == u16::MAX { 1 } else { s.next_pkid + 1 };
@@ -192,9 +220,10 @@ impl<'a> Interp<'a> {
                 let spec_v5 = self.specs[*c].v5;
                 let sub_id = if spec_v5 { *sub_id } else { None };
                 if self.strict(*c) {
+                    let eff = self.effective_subs(s);
                     for (f, q) in filters {
-                        let existing = self.model.conns[s].subs.iter().find(|x| x.filter == *f && x.end.is_none());
-                        if av.resub_qos && existing.is_some_and(|x| x.qos != *q) {
+                        let existing = eff.iter().find(|x| x.0 == *f);
+                        if av.resub_qos && existing.is_some_and(|x| x.1 != *q) {
                             self.stats.excluded_known += 1;
                             return Ok(());
                         }
@@ -224,20 +253,16 @@ impl<'a> Interp<'a> {
                 };
                 if self.strict(*c) {
                     let av = &self.flags.avoid;
-                    let mc = &self.model.conns[s];
+                    let eff = self.effective_subs(s);
                     if av.unsub_shape {
                         // region R8: exactly one filter, subscribed on this very connection
-                        let ok = filters.len() == 1
-                            && mc
-                                .subs
-                                .iter()
-                                .any(|x| x.filter == filters[0] && x.end.is_none() && x.made_at >= mc.registered_at && !mc.session_present);
+                        let ok = filters.len() == 1 && eff.iter().any(|x| x.0 == filters[0] && x.2);
                         if !ok {
                             self.stats.excluded_known += 1;
                             return Ok(());
                         }
                     }
-                    if av.unsub_in_group && mc.subs.iter().any(|x| x.group.is_some() && x.end.is_none() && !filters.contains(&x.filter)) {
+                    if av.unsub_in_group && eff.iter().any(|x| x.0.starts_with("$share/") && !filters.contains(&x.0)) {
                         self.stats.excluded_known += 1;
                         return Ok(());
                     }
@@ -696,6 +721,19 @@ impl<'a> Interp<'a> {
     }
 
     pub fn turn(&mut self) -> Result<bool, Failure> {
+        if self.flags.acks && !self.mirror.is_empty() {
+            // classification only: requests about to be processed while their connection is paused
+            let snap = self.sim.snapshot();
+            for ev in self.mirror.iter().take(501) {
+                if let Ev::Data(id) = ev {
+                    if let Some(vc) = snap.connections.iter().find(|c| c.id == *id) {
+                        if vc.status == "busy" || vc.status == "inflightfull" {
+                            self.stats.paused_requests += 1;
+                        }
+                    }
+                }
+            }
+        }
         let out = self.sim.turn()?;
         self.stats.turns += 1;
         ensure!(
@@ -927,6 +965,19 @@ impl<'a> Interp<'a> {
                     );
                 }
             }
+            if !model_live
+                && self.flags.window
+                && matches!(
+                    self.model.conns[serial].closed,
+                    Some(CloseWhy::Violation("unsolicited_ack")) | Some(CloseWhy::Violation("unsolicited_pubcomp"))
+                )
+            {
+                fail!(
+                    "window:unsolicited_ack_did_not_close_connection",
+                    "client {:?} acknowledged a packet id the broker had not sent next, and its connection is still open",
+                    client_id
+                );
+            }
             // not asserted on: follow the router
             if model_live {
                 self.stats.router_closed += 1;
@@ -1055,6 +1106,7 @@ impl<'a> Interp<'a> {
         obs.class_if(s.wills_fired > 0, "will_published");
         obs.class_if(s.retained_replays > 0, "retained_replay");
         obs.class_if(s.qos2_completed > 0, "qos2_outbound_completed");
+        obs.class_if(s.paused_requests > 0, "request_while_paused");
     }
 }
 
@@ -1072,5 +1124,7 @@ pub fn run_history(h: &Hist, flags: &Flags, obs: &mut Obs) -> Result<Stats, Fail
         Ok(())
     })();
     it.finish(obs);
+    it.stats.qos2_in_completed = it.views.iter().map(|v| v.pubcomp_received).sum();
+    it.stats.acks_received = it.views.iter().map(|v| v.acks_received).sum();
     r.map(|_| it.stats.clone())
 }
